@@ -358,6 +358,7 @@ class World2:
         self.computations = []
         self.queues = []
         self.task_runs = {}
+        self.pushed = set()  # (stream id, item index) whose push() returned
 
     def build(self, ws):
         groups = []
@@ -423,6 +424,7 @@ class World2:
                         await queue.push(await ext.fut)
                 else:
                     await queue.push(result)
+                self.pushed.add((s.sid, i))
             if s.fail_after is not None and s.fail_after >= s.n_items:
                 raise GraphQLError(f"S{s.sid} failed")
 
@@ -461,7 +463,7 @@ def run_graph(spec, sched_tape, prop):
     world = World2(sim, spec, early, capacity)
     ctx = Ctx(world)
     labels_parent = {g.label: (g.parent.label if g.parent else None) for g in spec.all_groups}
-    mon = Monitor(labels_parent, lenient=prop == "C04")
+    mon = Monitor(labels_parent, lenient=True)  # keep going: a known deviation must not hide others
     out = {"payloads": [], "protocol_error": None, "ended": False, "error": None,
            "waiting": None, "mon": mon, "ctx": ctx, "world": world,
            "knobs": {"early": early, "capacity": capacity, "pull": pull}}
@@ -541,11 +543,13 @@ def _check_graph(spec, sim, out, prop):
         vs.append(Violation(prop, "escaped_exception", {"world": "W2",
                             "type": type(out["error"]).__name__}, {"error": repr(out["error"])}))
         return vs
-    if out["protocol_error"] is not None:
-        pe = out["protocol_error"]
+    seen_pe = set()
+    for pe in mon.protocol_errors:
+        if (pe.rule, pe.what) in seen_pe:
+            continue
+        seen_pe.add((pe.rule, pe.what))
         vs.append(Violation(prop, "protocol", {"rule": pe.rule, "what": pe.what, "world": "W2"},
                             {"detail": pe.detail, "payloads": out["payloads"][-4:]}))
-        return vs
     if not out["ended"]:
         vs.append(Violation(prop, "no_termination", {"waiting": out["waiting"], "world": "W2"},
                             {"pending_ids": list(mon.pending.values()),
